@@ -730,3 +730,78 @@ def defs_of(fn: FuncInfo, e: ast.expr, depth: int = 3) -> List[ast.expr]:
                 out += defs_of(fn, d, depth - 1)
             return out
     return [e]
+
+
+def ast_text_parts(p: Program, mod: Module, e: ast.expr):
+    """The pieces of a text-building expression (f-string, `+`, `%`, `.format` around constant text; module-level literal
+    constants folded in) as flow terms: ('const', text) | ('param', name) | ('attr', term, name) | ('expr', source).
+    None when `e` is not such a text. For expressions that are not inside an analysed function (a lambda handed to a
+    module-level table, a class attribute)."""
+    from .flow import strparts
+    from .fold import Folder, NotConst
+
+    F = Folder(p)
+
+    def term(x: ast.expr):
+        if isinstance(x, ast.Constant):
+            return ("const", x.value)
+        if isinstance(x, ast.Name):
+            try:
+                v = F.fold(mod, x)
+                if isinstance(v, (str, bytes, int)):
+                    return ("const", v)
+            except NotConst:
+                pass
+            return ("param", x.id)
+        if isinstance(x, ast.Attribute):
+            return ("attr", term(x.value), x.attr)
+        if isinstance(x, ast.JoinedStr):
+            parts = []
+            for v in x.values:
+                if isinstance(v, ast.FormattedValue):
+                    t = term(v.value)
+                    if v.conversion != -1 or v.format_spec is not None:
+                        t = ("fmt", t, {114: "r", 115: "s", 97: "a"}.get(v.conversion, ""), ast.unparse(v.format_spec) if v.format_spec else "")
+                    parts.append(t)
+                else:
+                    parts.append(term(v))
+            return ("fstr", tuple(parts))
+        if isinstance(x, ast.BinOp) and isinstance(x.op, (ast.Add, ast.Mod)):
+            return ("binop", type(x.op).__name__, term(x.left), term(x.right))
+        if isinstance(x, ast.Tuple):
+            return ("tuple", tuple(term(y) for y in x.elts))
+        if isinstance(x, ast.Call) and isinstance(x.func, ast.Attribute) and x.func.attr == "format":
+            return ("call", ("attr", term(x.func.value), "format"), tuple(term(a) for a in x.args), tuple((k.arg or "**", term(k.value)) for k in x.keywords), 0)
+        return ("expr", " ".join(ast.unparse(x).split()))
+
+    return strparts(term(e))
+
+
+def nested_fn(fn: Optional[FuncInfo], name: str, role: Optional[Callable[[FuncInfo], bool]] = None) -> Optional[FuncInfo]:
+    """The nested function of `fn` that plays a role: the one called `name` on the pinned tree; after a rename, the only
+    nested function there is, or the only one for which `role` holds. None when that is not unique."""
+    if fn is None:
+        return None
+    if name in fn.nested:
+        return fn.nested[name]
+    cands = list(fn.nested.values())
+    if role is not None:
+        r = [c for c in cands if role(c)]
+        if len(r) == 1:
+            return r[0]
+    if len(cands) == 1:
+        return cands[0]
+    return None
+
+
+def passed_as_argument(outer: FuncInfo) -> Callable[[FuncInfo], bool]:
+    """role predicate: the nested function is handed to a call as an argument (a callback / a submitted job) or its call is"""
+    def pred(nf: FuncInfo) -> bool:
+        for c in calls_in(outer):
+            for a in list(c.args) + [k.value for k in c.keywords]:
+                if isinstance(a, ast.Name) and a.id == nf.name:
+                    return True
+                if isinstance(a, ast.Call) and isinstance(a.func, ast.Name) and a.func.id == nf.name:
+                    return True
+        return False
+    return pred
